@@ -11,8 +11,8 @@ DESIGN_REF = "DESIGN.md §9 C17, §12.C17"
 COQ_TARGETS = ["Properties/C17", "Pins/C17"]
 THEOREMS = [("PdfV.Properties.C17", n) for n in
             ["C17_marker_first_occurrence", "C17_header_no_border", "C17_locate_start", "C17_locate_xref", "C17_load_invariant",
-             "C17_resolve_invariant", "C17_scan_invariant", "C17_resolve_overflow_refuted", "C17_full_statement_refuted",
-             "C17_scan_refuted_before_fix"]]
+             "C17_resolve_invariant", "C17_scan_invariant", "C17_full_statement_proved", "C17_resolve_no_panic",
+             "C17_resolve_overflow_refuted_before_fix", "C17_scan_refuted_before_fix"]]
 ANCHORS = ["backend.rs", "xref.rs", "parse_xref.rs", "lexer/mod.rs"]
 MODES = ["xr_locate", "xr_walk"]
 TRUSTED_BASE = ["coqc 8.16.1 kernel (vm_compute for the generated HEADER lemma and the witnesses; no native_compute)",
@@ -184,23 +184,25 @@ def generate(rng, tier):
         yield c
 
 
-def overflow_file():
-    """an xref stream (w1 = 8) whose entry for object 5 has offset 2^64-1"""
+def overflow_file(target=2 ** 64 - 1):
+    """an xref stream (w1 = 8) whose entry for object 5 has offset `target` (default 2^64-1)"""
     revs = [Revision({1: Obj({"A": 1}), 5: Obj({"B": 5})}, fmt="stream", trailer={"VpRev": 0}, w=(1, 8, 2), xref_num=6)]
     data, info = write_file(revs)
     off = info["offsets"][(5, 0)]
     row = b"\x01" + off.to_bytes(8, "big") + b"\x00\x00"
     assert data.count(row) == 1
-    return data.replace(row, b"\x01" + b"\xff" * 8 + b"\x00\x00")
+    return data.replace(row, b"\x01" + target.to_bytes(8, "big") + b"\x00\x00")
 
 
 def overflow_cases():
-    yield Case("xr_pair", [b"s", b"7", b"%", overflow_file()], check=pair_check(None), model=False, tags=["overflow-offset"])
+    """C17-b (fixed): offsets for which header position + offset does not fit in 64 bits, or just does"""
+    for off in (2 ** 64 - 1, 2 ** 64 - 2, 2 ** 64 - 1019, 2 ** 64 - 1020, 2 ** 63):
+        for pre in (b"", b"%", b"%%", b"%" * 1018, b"%" * 1019):
+            yield Case("xr_pair", [b"s", b"7", pre, overflow_file(off)], check=pair_check(None), model=False,
+                       tags=["overflow-offset", "len:%d" % len(pre)])
 
 
 def classify(case, impl, model):
-    if impl[0] == "PANIC" and "file.rs" in impl[1] and "overflow" in impl[1] and "overflow-offset" in case.tags:
-        return "C17-b"
     return None
 
 
@@ -209,7 +211,7 @@ def witness_case(f, c):
         c.check = pair_check(None)
         c.model = False
         if f["id"] == "C17-b":
-            c.tags.add("overflow-offset")
+            c.tags = set(c.tags) | {"overflow-offset"}
     elif "expect_hex" in f:
         c.expect = ok(*[bytes.fromhex(x) for x in f["expect_hex"]])
     return c
